@@ -224,7 +224,11 @@ def evaluate__mod_operator(self: XPathToken, context: ta.ContextType = None) \
     try:
         if isinstance(op1, int) and isinstance(op2, int):
             return abs(op1) % abs(op2) if op1 >= 0 else -(abs(op1) % abs(op2))
-        return op1 % op2  # type: ignore[operator]
+        result = op1 % op2  # type: ignore[operator]
+        if isinstance(result, float) and not math.isnan(result):
+            # Python's float modulo is floored, XPath requires the truncating remainder
+            return type(result)(math.fmod(op1, op2))
+        return result
     except TypeError as err:
         raise self.error('FORG0006', err) from None
     except (ZeroDivisionError, decimal.InvalidOperation):
